@@ -50,6 +50,7 @@ type LogEntry struct {
 	Injected  string // non-empty: the request never reached the store (injected fault kind)
 	Read      bool   // a served get/list (After = object returned by get; Count = items listed)
 	Count     int
+	Items     []map[string]any // list reads: the items served (read-only)
 }
 
 type histEntry struct {
@@ -1236,9 +1237,9 @@ func (s *Store) VersionsBetween(k ObjKey, from, to int) []map[string]any {
 
 // LogRead records a read that was served (get: After is the object returned,
 // nil for NotFound; list: Count is the number of items).
-func (s *Store) LogRead(c Caller, verb string, gvk schema.GroupVersionKind, ns, name string, obj map[string]any, count int, err error) {
+func (s *Store) LogRead(c Caller, verb string, gvk schema.GroupVersionKind, ns, name string, obj map[string]any, items []map[string]any, err error) {
 	e := &LogEntry{Seq: len(s.Log), Step: s.StepFn(), Actor: c.Actor, TaskID: c.TaskID, TaskLabel: c.TaskLabel, Verb: verb,
-		Key: ObjKey{Group: gvk.Group, Kind: gvk.Kind, NS: ns, Name: name}, After: obj, Count: count, Err: err, Read: true}
+		Key: ObjKey{Group: gvk.Group, Kind: gvk.Kind, NS: ns, Name: name}, After: obj, Count: len(items), Items: items, Err: err, Read: true}
 	s.Log = append(s.Log, e)
 	for _, f := range s.OnLog {
 		f(e)
